@@ -53,6 +53,10 @@ def fixed():
     out.append(_case("no-stoich-no-rank", abc, ["one", "crn1", "crn0", "check0"], opts=(False, False)))
     # >= 2 classes, nullity >= 2, a null step, isolated species
     out.append(_case("nondeg-tolerance", abc, ["nondegt", "crn0", "nondegt", "nondeg", "nondegt", ["del", "r_3"], "nondegt", "crn1", "nondegt"]))
+    # between the calls: the caller edits what as_dict() returned; other routes / non-default export options on the same input object
+    for view in ("hyper", "bip_int"):
+        out.append(_case("tamper-and-probes/" + view, abc, ["crn1", ["probe", 4], "check1", ["probe", 0], "linkage", ["probe", 1], "one", ["probe", 2],
+                                                        "nondeg", ["probe", 3], "crn0", ["probe", 4], "reg", "summary", ["probe", 4], "check0"], view=view))
     out.append(_case("two-classes", ["A >> B", "C >> D", "D >> 2 C"], ["crn1", ["del", "r_3"], "linkage", "nondeg", "crn1"]))
     out.append(_case("null-step", [["r_1", "r", [["A", 1]], [["A", 1]]], ["r_2", "r", [["B", 1]], [["C", 1]]]], ["crn1", "reg", "check0"]))
     out.append(_case("isolated", ["A >> B"], ["crn1", ["add", ["n_1", "r", P("A"), P("2 B")]], "nondeg", "crn1"], iso=["Z"]))
@@ -76,7 +80,9 @@ def random_scripts(rng, count):
             if rng.random() < 0.3:
                 e = None
                 y = rng.random()
-                if view != "hyper" or y < 0.3:
+                if rng.random() < 0.15:
+                    e = ["probe", rng.randrange(5)]
+                elif view != "hyper" or y < 0.3:
                     cands = [(r[0], sd, x[0]) for r in cur for sd, side in (("l", r[2]), ("r", r[3])) for x in side]
                     if cands:
                         eid, sd, sp_ = rng.choice(cands)
